@@ -78,6 +78,8 @@ def run(lines, out, args):
                 if invs or f[5] == "E":    # "E": an explicitly empty invariants list (legal; ancestors' invariants still apply)
                     I.setTaggedValue("invariants", invs)
                 ifs[int(f[1])] = I
+            elif f[0] == "settag":
+                ifs[int(f[1])].setTaggedValue(f[2], int(f[3]))
             elif f[0] == "watch":
                 # a dependent of the interface that, from INSIDE every change notification it receives, asks the interface
                 # (whose own resolution order is up to date by then) for every name: each answer must be the first definition
